@@ -434,8 +434,8 @@ impl ArrayLike for ReverseArray {
 
 #[derive(Trace, Clone, Debug)]
 pub enum ArrayMapper {
-	Plain(NativeFn!((Val) -> Val)),
-	WithIndex(NativeFn!((u32, Val) -> Val)),
+	Plain(NativeFn!((Thunk<Val>) -> Val)),
+	WithIndex(NativeFn!((u32, Thunk<Val>) -> Val)),
 }
 
 #[derive(Trace, Debug, Clone)]
@@ -453,7 +453,7 @@ impl MappedArray {
 			mapper,
 		}
 	}
-	fn evaluate(&self, index: usize, value: Val) -> Result<Val> {
+	fn evaluate(&self, index: usize, value: Thunk<Val>) -> Result<Val> {
 		match &self.mapper {
 			ArrayMapper::Plain(f) => f.call(value),
 			ArrayMapper::WithIndex(f) => f.call(index as u32, value),
@@ -484,11 +484,9 @@ impl ArrayLike for MappedArray {
 
 		// Same as in ExprArray: count element evaluation towards the stack depth limit
 		let val = check_depth().map_err(Error::from).and_then(|_guard| {
-			self.inner
-				.get(index)
-				.transpose()
-				.expect("index checked")
-				.and_then(|r| self.evaluate(index, r))
+			// The element is passed unevaluated, as an argument to the mapper function would be
+			let value = self.inner.get_lazy(index).expect("index checked");
+			self.evaluate(index, value)
 		});
 
 		let new_value = match val {
